@@ -261,6 +261,13 @@ def flow_forces(S, rep):
            "apply_forces: %s" % texts, key="C08.e|%s" % texts)
 
 
+def run_wrappers(S, rep):
+    """fluid + body forces balance only if the interaction the user configured is the one that runs: the body-specific
+    interaction classes must forward the reset / accumulate option (and every other argument) to the base unchanged"""
+    from .c10 import wrappers_forward_options
+    wrappers_forward_options(S, rep, rule="C08.f")
+
+
 def run(S, tier, rep):
     rep.rule_text = ("transfer_forcing_from_grid_to_body of every forcing grid is interpreted over one generic element / marker with linear "
                      "marker sums; nodal forces are tracked as (contribution to next node, contribution to previous node): their sum must be "
@@ -272,6 +279,8 @@ def run(S, tier, rep):
     for relfile, cls, dim in CASES:
         check_case(S, rep, relfile, cls, dim)
     flow_forces(S, rep)
+    run_wrappers(S, rep)
+    rep.require_min("C08.f", 2)
     rep.require_min("C08.a", 12)
     rep.require_min("C08.c", 8)
     rep.require_min("C08.b", 4)
